@@ -31,7 +31,7 @@ func init() {
 	register(&Rule{
 		ID:    "AGG-1",
 		Doc:   "no consumption of a traversal-wide running extremum inside the traversal: in a function that updates *p = max/min(*p, v) through a pointer parameter or captured variable and is recursive or called from a loop, no other load of *p may flow into a store to a struct field or map cell",
-		Floor: 1,
+		Floor: 2,
 		Ctl:   []string{"internal__phase2__agg1.go.txt"},
 		Run:   runAgg1,
 	})
@@ -300,6 +300,8 @@ func runAgg1(m *Model, r *RuleResult) {
 			}
 		})
 	}
+	updates := map[*ssa.Function]map[int]bool{}
+	defer func() { agg1CallerSide(m, r, updates) }()
 	for _, f := range m.Src {
 		// candidate cells: pointer parameters and free variables to numeric cells
 		var cells []ssa.Value
@@ -340,6 +342,12 @@ func runAgg1(m *Model, r *RuleResult) {
 			}
 			if upd == nil {
 				continue
+			}
+			if pi := paramIndex(f, cell); pi >= 0 {
+				if updates[f] == nil {
+					updates[f] = map[int]bool{}
+				}
+				updates[f][pi] = true
 			}
 			if !recursive[f] && !calledInLoop[f] && f.Parent() == nil {
 				continue
@@ -399,6 +407,90 @@ func runAgg1(m *Model, r *RuleResult) {
 				r.add(Obligation{Key: key, Pos: m.Pos(upd.Pos()), Desc: "running extremum is only updated during the traversal", Verdict: "holds", Control: ctl})
 			}
 		}
+	}
+}
+
+// agg1CallerSide: a local cell whose address is handed, inside a loop, to a function that max/min-updates it is a running
+// extremum for the duration of that loop: loads of the cell inside the loop must not flow into heap stores.
+func agg1CallerSide(m *Model, r *RuleResult, updates map[*ssa.Function]map[int]bool) {
+	for _, f := range m.Src {
+		loops := naturalLoops(f)
+		if len(loops) == 0 {
+			continue
+		}
+		eachInstr(f, func(in ssa.Instruction) {
+			ci, ok := in.(ssa.CallInstruction)
+			if !ok {
+				return
+			}
+			ls := loopsContaining(loops, in.Block())
+			if len(ls) == 0 {
+				return
+			}
+			outer := ls[len(ls)-1]
+			for _, cal := range m.Callees(ci) {
+				for i := range updates[cal] {
+					args := ci.Common().Args
+					if i >= len(args) {
+						continue
+					}
+					cell, ok := args[i].(*ssa.Alloc)
+					if !ok {
+						continue
+					}
+					key := "running-extremum:" + funcKey(f) + ":" + cell.Comment + "@caller"
+					for _, o := range r.Obligations {
+						if o.Key == key {
+							return
+						}
+					}
+					var bad []string
+					for _, ref := range *cell.Referrers() {
+						u, ok := ref.(*ssa.UnOp)
+						if !ok || u.Op != token.MUL || !outer.Body[u.Block()] {
+							continue
+						}
+						seen := map[ssa.Value]bool{}
+						var flow func(v ssa.Value)
+						flow = func(v ssa.Value) {
+							if seen[v] || v.Referrers() == nil {
+								return
+							}
+							seen[v] = true
+							for _, r2 := range *v.Referrers() {
+								switch x := r2.(type) {
+								case *ssa.BinOp:
+									flow(x)
+								case *ssa.Phi:
+									flow(x)
+								case *ssa.Convert:
+									flow(x)
+								case *ssa.Store:
+									if x.Val == v {
+										ai := classifyAddr(x.Addr)
+										if len(ai.Locs) > 0 && !isFreshObject(ai.Base, 0) {
+											bad = append(bad, fmt.Sprintf("the running value read at %s is stored into %s at %s", m.Pos(u.Pos()), ai.Locs[0], m.Pos(x.Pos())))
+										}
+									}
+								case *ssa.MapUpdate:
+									if x.Value == v {
+										bad = append(bad, fmt.Sprintf("the running value read at %s is stored into a map at %s", m.Pos(u.Pos()), m.Pos(x.Pos())))
+									}
+								}
+							}
+						}
+						flow(u)
+					}
+					ctl := m.FuncIsPosctl(f)
+					if len(bad) > 0 {
+						r.add(Obligation{Key: key, Pos: m.Pos(in.Pos()), Desc: "running extremum consumed inside the loop that is still updating it", Verdict: "violation",
+							Detail: strings.Join(bad, "; ") + ": values derived from it are relative to whatever the maximum was at that moment, not to the final one", Control: ctl})
+					} else {
+						r.add(Obligation{Key: key, Pos: m.Pos(in.Pos()), Desc: "the running extremum is read only after the loop that updates it", Verdict: "holds", Control: ctl})
+					}
+				}
+			}
+		})
 	}
 }
 
